@@ -402,11 +402,66 @@ def gen_gate(repo, out, report):
     return {'arms': len(table), 'classes': {c: sum(1 for _, cc, _ in table if cc == c) for c in sorted(set(c for _, c, _ in table))}, 'operator_validated_before_use': op_first, 'body_end_validated': finish_checked, 'locals_validated_before_use': locals_first, 'reader_uses_configured_features': reader_features, 'validator_uses_configured_features': validator_features}
 
 
+def gen_par(repo, out, report):
+    """G8: every `maybe_parallel!` site and the combinator chain applied to it.  Only order-preserving / order-free
+    shapes are understood: `.map(closure).collect::<Vec<_>>()` (rayon's indexed collect) and `.any(closure)`."""
+    sites = []
+    import glob
+    for path in sorted(glob.glob(os.path.join(repo, 'src', '**', '*.rs'), recursive=True)):
+        rel = os.path.relpath(path, repo)
+        src = open(path).read()
+        if 'maybe_parallel!' not in src: continue
+        toks = tokenize(src)
+        try: t = tree(toks)
+        except Exception as e: raise Refuse('cannot read %s: %s' % (rel, e))
+        def walk(items):
+            for i, x in enumerate(items):
+                if is_id(x, 'maybe_parallel!') and i + 1 < len(items) and isinstance(items[i + 1], Group):
+                    if i > 0 and is_id(items[i - 1], 'macro_rules!'): continue
+                    chain = []; j = i + 2
+                    while j + 1 < len(items) and is_p(items[j], '.') and isinstance(items[j + 1], Tok) and items[j + 1].k == 'id':
+                        name = items[j + 1].s; j += 2
+                        # optional turbofish
+                        tf = ''
+                        if j < len(items) and is_p(items[j], '::'):
+                            k = j + 1; depth = 0; buf = []
+                            while k < len(items):
+                                buf.append(items[k]);
+                                if is_p(items[k], '<'): depth += 1
+                                if is_p(items[k], '<<'): depth += 2
+                                if is_p(items[k], '>') or is_p(items[k], '>>'):
+                                    depth -= 2 if is_p(items[k], '>>') else 1
+                                    if depth <= 0: break
+                                k += 1
+                            tf = text(buf).replace(' ', ''); j = k + 1
+                        if j < len(items) and is_g(items[j], '()'): j += 1
+                        chain.append(name + (('::' + tf) if tf else ''))
+                    sites.append((rel, text(items[i + 1].items).replace(' ', ''), chain))
+                if isinstance(x, Group): walk(x.items)
+        walk(t)
+    kinds = []
+    for rel, arg, chain in sites:
+        if chain[:2] == ['map', 'collect::<Vec<_>>']: kinds.append('PS_MapCollectVec')
+        elif chain[:1] == ['any']: kinds.append('PS_Any')
+        else: raise Refuse('parallel site %s %s uses a combinator chain that is not understood: %s' % (rel, arg, chain))
+    o = ['(* GENERATED by /verif/translator/gen_more.py (G8) from every maybe_parallel! site under src/ -- do not edit *)', 'From Coq Require Import List. Import ListNotations.',
+         'Inductive par_shape := PS_MapCollectVec | PS_Any.',
+         'Definition par_sites : list par_shape := [%s].' % '; '.join(kinds),
+         '(* ' + ' | '.join('%s %s %s' % (r, a, '.'.join(c)) for r, a, c in sites) + ' *)']
+    content = '\n'.join(o) + '\n'
+    path = os.path.join(out, 'ParSites.v')
+    try:
+        if open(path).read() != content: open(path, 'w').write(content)
+    except OSError: open(path, 'w').write(content)
+    return {'sites': [{'file': r, 'arg': a, 'chain': c} for r, a, c in sites]}
+
+
 def run(repo, out, report, g):
     try:
         report['attrs'] = gen_attrs(repo, out, report)
         report['features'] = gen_features(repo, out, report)
         report['gate'] = gen_gate(repo, out, report)
+        report['par'] = gen_par(repo, out, report)
     except Refuse as e:
         import gen
         raise gen.Refuse(str(e))
